@@ -232,7 +232,7 @@ ARENA = {
     'C01': dict(
         x=['block-outside-owned-memory', 'block-misaligned', 'live-blocks-overlap', 'block-smaller-than-requested', 'panic'],
         mism=['result-block', 'result-kind', 'stats'],
-        note='PARTIAL: invariant preservation proved for every operation except grow/shrink'),
+        note='PARTIAL: invariant preservation proved for every modelled operation except alloc_try_with(_mut)-returning-Err'),
     'C02': dict(
         x=['block-contents-changed', 'grow-lost-contents', 'shrink-lost-contents', 'zeroed-allocation-not-zero',
            'grow-zeroed-tail-not-zero', 'MODELUB', 'panic'],
